@@ -26,6 +26,10 @@ CLAIMED = {
         text="C04_total_in_bounds: for every byte string and shape, the decoder over the raw-pointer slice flavour (cursor/end indices; an out-of-range read is Fault, an over-wide shift or bad slice is Panic) equals the reference decoder and returns a value or an error only - proved through a generic flavour-simulation theorem (de_sim) and the invariant cursor <= end = len; borrowed strings/bytes are the sub-list of the input at the cursor (C04_borrowed_in_input); the sequence size hint never exceeds the remaining bytes (C04_hint_sound, rule translated from the source). Partial: the machine-level effect of the unsafe reads and the real allocator are observed by the harness (inputs flush against PROT_NONE pages on either side, counting allocator, adversarial length prefixes), not proved.",
         note=NOTE + "the unsafe pointer reads themselves (indices into a list in the model), serde's collection visitors and size_hint::cautious, the allocator",
         design="4 (C04)"),
+    'C07': dict(
+        text="C07_decoder_is_reference: for every buffer the in-place decoder of crate cobs (modelled index by index on one buffer, every access checked) computes exactly the reference COBS decoding of the first frame, fails exactly when a code byte points past the frame, keeps the buffer length and leaves everything from the frame end on untouched (invariant: the write index trails the read index); C07_take_from_bytes_cobs / C07_from_bytes_cobs: the entry points equal reference-decode-then-plain-decode with the remainder starting right after the sentinel; C07_total: never Panic/Fault/out-of-fuel on any bytes. Direct oracle: independent COBS decoder + plain decoder on exhaustive strings over a code-byte alphabet, corruptions and truncations, buffers flush against guard pages.",
+        note=NOTE + "crate cobs 0.2.3 decode_in_place / decode_in_place_report (transcribed from dec.rs, compared on every case)",
+        design="5 (C07)"),
     'C10': dict(
         text="C10_output (frame = plain ++ le(crc(plain))), C10_roundtrip, C10_accept_sound (whatever CRC-checked decoding accepts: consumed bytes followed by their correct checksum, value and length those of plain decoding; by simulation of the CRC modifier with a consumption-tracking slice), C10_checksum_pinned, C10_crc_bound. The burst-error theorem is not proved (partial); the harness applies every single-bit flip and bursts <= width in the algorithm's bit order to every sampled frame and recomputes checksums with an independent bitwise CRC for 10 catalogue algorithms.",
         note=NOTE + "crate crc (table-driven Digest) as the bitwise Rocksoft model, compared on every frame",
